@@ -45,6 +45,11 @@ class Boom(FloatOperation):
         raise ValueError("boom")
 
 
+class BoomNoMessage(FloatOperation):
+    def _process_logic(self, data):
+        raise RuntimeError()          # an exception without a message (bare assert, TimeoutError(), ...)
+
+
 def good(i):
     return [{"processor": FloatValueDataSourceWithDefault}, {"processor": FloatMultiplyOperation, "parameters": {"factor": float(i + 2)}},
             {"processor": FloatCollectValueProbe, "context_key": f"seen_{i}"}]
@@ -52,6 +57,7 @@ def good(i):
 
 BAD = {
     "processor-raises": lambda i: [{"processor": FloatValueDataSourceWithDefault}, {"processor": Boom}],
+    "processor-raises-without-a-message": lambda i: [{"processor": FloatValueDataSourceWithDefault}, {"processor": BoomNoMessage}],
     "unknown-parameter": lambda i: [{"processor": FloatValueDataSourceWithDefault}, {"processor": FloatMultiplyOperation, "parameters": {"factor": 2.0, "bogus": 1}}],
     "unresolvable-parameter": lambda i: [{"processor": FloatValueDataSourceWithDefault}, {"processor": FloatMultiplyOperation}],
 }
@@ -236,7 +242,7 @@ def status_before_enqueue_returns():
 
 
 status_before_enqueue_returns()
-print(json.dumps({"bound": "batches of 1..8 (thorough 40) distinct jobs x 1..4 workers x switch intervals {1e-6,1e-4,5e-3} x enqueue before/after start; failing job (3 kinds) at every position of batches of 1,3 (thorough 6); one empty-collection job; 2 jobs whose status is delivered while the enqueuing thread is still inside put()",
+print(json.dumps({"bound": "batches of 1..8 (thorough 40) distinct jobs x 1..4 workers x switch intervals {1e-6,1e-4,5e-3} x enqueue before/after start; failing job (4 kinds, one raising without a message) at every position of batches of 1,3 (thorough 6); one empty-collection job; 2 jobs whose status is delivered while the enqueuing thread is still inside put()",
                   "evaluations": evaluations, "distinct_nontrivial": len(distinct),
                   "rule": "distinct = (batch size, workers, switch interval, enqueue timing, failing position, failure kind); results compared with a direct Pipeline.process of the same job",
                   "failures": failures[:40], "samples": samples}, default=str))
